@@ -9,7 +9,7 @@ RULE = ("histories as in C08 in which an update is, with measured frequencies of
 
 
 def main(ctx):
-    total = 24000 if ctx.thorough else 4000
+    total = 24000 if ctx.thorough else 3200
     dynamic_check(ctx, invalid=True, total=total, rule=RULE, modelled=MODELLED)
 
 
